@@ -9,6 +9,24 @@ TRUST = ("Trusted base: CPython, Hypothesis, the reference models under lsfverif
          "'held' means held on the cases counted in the evidence file.")
 
 CHECKS = {
+    "C09": dict(
+        category="exploration",
+        technique="property-based testing over generated machines x schedules: history well-formedness monitor after every scheduler step, GetExecutionHistory in both orders, StateEntered/StateExited differential against the reference interpreter's trace",
+        text=("For every generated run (success and failure paths, retries, catches, Parallel/Map, STANDARD and EXPRESS, 1-3 executions, deviating schedules) the stored history is checked after each step "
+              "(ids 1..n, previousEventId, non-decreasing timestamps, starts with ExecutionStarted+input, append-only, exactly one terminal event that is last and agrees with DescribeExecution, nothing appended "
+              "afterwards, EXPRESS stores nothing); GetExecutionHistory must equal the store and reverseOrder its reverse; state events must agree with the reference run."),
+        design_ref="DESIGN.md section 5 C09",
+        note="Trace differential only where the reference is deterministic; a caught state may or may not log StateExited; task lifecycle events are checked for numbering only. " + TRUST,
+    ),
+    "C11": dict(
+        category="exploration",
+        technique="property-based testing over generated machines x schedules x store configurations with a cross-surface agreement monitor (record / notification / history / API views through every instance)",
+        text=("After every scheduler step the stored execution record, the latest status-change notification and the last history event must tell the same status/input/output/error; every status change is "
+              "published once to <stateMachineArn>.<status> in the CloudWatch shape with millisecond dates while the record keeps seconds; at the end DescribeExecution, ListExecutions and GetExecutionHistory "
+              "through each engine instance equal the store (file-backed and simulated-Redis configurations, one or two instances)."),
+        design_ref="DESIGN.md section 5 C11",
+        note="Redis is simulated (lsfverif/fakes/redis, pottery); record reads happen between handler invocations. " + TRUST,
+    ),
     "C02": dict(
         category="exploration",
         technique="property-based testing over generated machines x generated schedules with a lifecycle monitor evaluated after every scheduler step (notification sequence, record immutability and well-formedness, termination at quiescence)",
